@@ -292,7 +292,7 @@ pub fn open_log(dir: &Path, policy: &str) -> Result<MultiRecordLog, String> {
 }
 
 pub fn begin_json(script: &Script, idx: usize, step: &Step) -> Value {
-    let mut value = json!({"ev": "begin", "i": idx, "op": "", "q": -1, "pos": -1, "batch": [], "p": -1, "fsync": 0});
+    let mut value = json!({"ev": "begin", "i": idx, "op": "", "q": -1, "pos": -1, "batch": [], "p": -1, "fsync": 0, "emb": []});
     match step {
         Step::Create { q } => {
             value["op"] = json!("create");
@@ -314,6 +314,18 @@ pub fn begin_json(script: &Script, idx: usize, step: &Step) -> Value {
                 })
                 .collect();
             value["batch"] = json!(batch);
+            let emb: Vec<Value> = match step {
+                Step::Append { batch, .. } => batch
+                    .iter()
+                    .filter_map(|payload| payload.embed.as_ref())
+                    .map(|embed| {
+                        let inner = plain_bytes(embed.pseed, embed.plen);
+                        json!([embed.q, script.enc(embed.pos), digest(&inner), inner.len()])
+                    })
+                    .collect(),
+                _ => Vec::new(),
+            };
+            value["emb"] = json!(emb);
         }
         Step::Truncate { q, p } => {
             value["op"] = json!("truncate");
